@@ -12,9 +12,8 @@ import (
 // senders and receivers is a tape decision and a deadlock is detected instead of
 // hanging. Otherwise the helpers perform the real channel operation.
 //
-// Limits (stated): select statements are not supported (simprep refuses, the
-// check exits 2); channels fed by the standard library (timers, contexts) are
-// not simulated.
+// Limits (stated): channels fed by the standard library (timers, contexts) are
+// not simulated; select is simulated (see the end of this file).
 
 const maxChans = 128
 const chanQueueCap = 256
@@ -31,6 +30,7 @@ type chanState struct {
 	closed bool
 	ctok   uint32 // close -> receive edge
 	key    uintptr
+	rwait  int // receivers parked on this channel (plain receives and select clauses)
 }
 
 var chans [maxChans]chanState
@@ -45,6 +45,7 @@ func resetChans() {
 		chans[i].q = chans[i].q[:0]
 		chans[i].id = nil
 		chans[i].closed = false
+		chans[i].rwait = 0
 	}
 	nchans = 0
 }
@@ -63,6 +64,7 @@ func chanLookup(id unsafe.Pointer) *chanState {
 	nchans++
 	st.id = id
 	st.closed = false
+	st.rwait = 0
 	if st.q == nil {
 		st.q = make([]chanItem, 0, chanQueueCap)
 	}
@@ -116,8 +118,26 @@ type plainError string
 func (e plainError) Error() string { return string(e) }
 func (e plainError) RuntimeError() {}
 
+//go:norace
+func chanAdjWait(st *chanState, d int) { st.rwait += d }
+
+//go:norace
+func chanWaiting(st *chanState) int { return st.rwait }
+
+// chanChanged wakes the tasks parked on the channel and those parked in a select.
+func chanChanged(st *chanState) {
+	Unblock(chanKey(st))
+	Unblock(&selKey)
+}
+
+var selKey uintptr
+
 func simSend(id unsafe.Pointer, capacity int, v any) {
 	Yield(YChanSend, 0)
+	simSendNow(id, capacity, v)
+}
+
+func simSendNow(id unsafe.Pointer, capacity int, v any) {
 	if id == nil {
 		var never uintptr
 		for {
@@ -138,12 +158,12 @@ func simSend(id unsafe.Pointer, capacity int, v any) {
 			}
 		}
 		chanEnqueue(st, chanItem{v: v, tok: tok})
-		Unblock(chanKey(st))
+		chanChanged(st)
 		return
 	}
 	taken := new(uint32)
 	chanEnqueue(st, chanItem{v: v, tok: tok, taken: taken})
-	Unblock(chanKey(st))
+	chanChanged(st)
 	for atomic.LoadUint32(taken) == 0 {
 		Block(chanKey(st))
 	}
@@ -151,6 +171,10 @@ func simSend(id unsafe.Pointer, capacity int, v any) {
 
 func simRecv(id unsafe.Pointer) (any, bool) {
 	Yield(YChanRecv, 0)
+	return simRecvNow(id)
+}
+
+func simRecvNow(id unsafe.Pointer) (any, bool) {
 	if id == nil {
 		var never uintptr
 		for {
@@ -164,14 +188,17 @@ func simRecv(id unsafe.Pointer) (any, bool) {
 			if it.taken != nil {
 				atomic.StoreUint32(it.taken, 1)
 			}
-			Unblock(chanKey(st))
+			chanChanged(st)
 			return it.v, true
 		}
 		if chanClosed(st) {
 			atomic.LoadUint32(chanCtok(st))
 			return nil, false
 		}
+		chanAdjWait(st, +1)
+		Unblock(&selKey) // a select with a send clause on this channel may proceed now
 		Block(chanKey(st))
+		chanAdjWait(st, -1)
 	}
 }
 
@@ -186,7 +213,7 @@ func simClose(id unsafe.Pointer) {
 	}
 	atomic.AddUint32(chanCtok(st), 1)
 	chanSetClosed(st)
-	Unblock(chanKey(st))
+	chanChanged(st)
 }
 
 func chanID[C any](ch C) unsafe.Pointer { return *(*unsafe.Pointer)(unsafe.Pointer(&ch)) }
@@ -229,4 +256,117 @@ func ChanClose[C ~chan T | ~chan<- T, T any](ch C) {
 		return
 	}
 	simClose(chanID(ch))
+}
+
+// ---- select -----------------------------------------------------------------------
+//
+// simprep rewrites
+//
+//	select { case v := <-a: A; case b <- x: B; default: D }
+//
+// into
+//
+//	{ __c0 := a; __c1 := b; __v1 := x
+//	  switch simrt.SelectReady(true, simrt.RecvCase(__c0), simrt.SendCase(__c1)) {
+//	  case 0: v := simrt.ChanRecvNow(__c0); A
+//	  case 1: simrt.ChanSendNow(__c1, __v1); B
+//	  default: D } }
+//
+// SelectReady decides from the simulator-owned channel state which clause proceeds:
+// a tape-chosen one among the ready clauses (Go chooses pseudo-randomly), the
+// default clause if none is ready, otherwise the task parks until one is. It returns
+// with the baton held, and the chosen operation is carried out at once by the ...Now
+// function, before any other task can run. Code that selects is only ever executed
+// under the simulator (the reference processes run under it too).
+
+type SelCase struct {
+	id   unsafe.Pointer
+	cap  int
+	send bool
+}
+
+func RecvCase[C ~chan T | ~<-chan T, T any](ch C) SelCase { return SelCase{id: chanID(ch)} }
+func SendCase[C ~chan T | ~chan<- T, T any](ch C) SelCase {
+	return SelCase{id: chanID(ch), cap: cap(ch), send: true}
+}
+
+//go:norace
+func selReady(c SelCase) bool {
+	if c.id == nil {
+		return false // a nil channel never proceeds
+	}
+	st := chanLookup(c.id)
+	if c.send {
+		if st.closed {
+			return true // proceeds, and panics as Go does
+		}
+		if c.cap > 0 {
+			return len(st.q) < c.cap
+		}
+		return st.rwait > len(st.q) // a receiver is parked and not yet served
+	}
+	return len(st.q) > 0 || st.closed
+}
+
+//go:norace
+func selAdjWait(c SelCase, d int) {
+	if c.id != nil && !c.send {
+		chanLookup(c.id).rwait += d
+	}
+}
+
+//go:norace
+func selChoice(n int) int { return R.tape.choose(KSched, n) }
+
+// SelectReady returns the index of the clause that proceeds, or -1 for default.
+func SelectReady(hasDefault bool, cases ...SelCase) int {
+	if !simulated() {
+		panic(plainError("simrt: select outside a simulated run"))
+	}
+	Yield(YChanRecv, 0)
+	for {
+		var ready [16]int
+		n := 0
+		for i, c := range cases {
+			if n < len(ready) && selReady(c) {
+				ready[n] = i
+				n++
+			}
+		}
+		if n > 0 {
+			return ready[selChoice(n)]
+		}
+		if hasDefault {
+			return -1
+		}
+		// park as a waiting receiver on every receive clause's channel, so that a
+		// sender on a rendezvous channel (plain or selecting) can proceed
+		for _, c := range cases {
+			selAdjWait(c, +1)
+		}
+		Unblock(&selKey)
+		Block(&selKey)
+		for _, c := range cases {
+			selAdjWait(c, -1)
+		}
+	}
+}
+
+// ChanRecvNow, ChanRecv2Now and ChanSendNow carry out the clause SelectReady chose.
+func ChanRecvNow[C ~chan T | ~<-chan T, T any](ch C) T {
+	v, _ := ChanRecv2Now[C, T](ch)
+	return v
+}
+
+func ChanRecv2Now[C ~chan T | ~<-chan T, T any](ch C) (T, bool) {
+	x, ok := simRecvNow(chanID(ch))
+	var z T
+	if !ok || x == nil {
+		return z, ok
+	}
+	return x.(T), true
+}
+
+func ChanSendNow[C ~chan T | ~chan<- T, T any](ch C, v T) {
+	simSendNow(chanID(ch), cap(ch), v)
 }
